@@ -184,6 +184,15 @@ def programs(ctx):
                     calls=rng.choice([c for c in CALL_SETS if sum(x[1] for x in c) <= 3]))
         add('TwoSiteTDVPEngine', L=5, model='xxz', mode='float', chi_max=2, pre=2, calls=[['run', 1, 1], ['run', 2, 1]])
         add('TimeDependentTwoSiteTDVP', L=5, mode='float', chi_max=2, pre=2, calls=[['run', 2, 1], ['run', 1, 1]])
+        # several sweeps per evolve() with real truncation, errors tagged (every local error must reach the reported sum)
+        add('TwoSiteTDVPEngine', L=5, model='xxz', chi_max=2, pre=2, calls=[['run', 2, 1], ['run', 3, 1]])
+        add('TwoSiteTDVPEngine', L=4, model='xxz', chi_max=2, pre=2, calls=[['runevo', 3, 1], ['run', 2, 2]])
+        # time-dependent engines with a model that updates itself in place (documented freedom of update_time_parameter)
+        add('TimeDependentTwoSiteTDVP', L=4, chi_max=2, pre=2, inplace=True, calls=[['run', 2, 1], ['runevo', 1, 1]])
+        add('TimeDependentSingleSiteTDVP', L=4, chi_max=4, pre=2, inplace=True, calls=[['run', 2, 1], ['run', 1, 2]])
+        add('TimeDependentTEBD', order='2', L=4, bc='finite', chi_max=2, pre=2, inplace=True, calls=[['run', 2, 1], ['runevo', 1, 2]])
+        add('TimeDependentExpMPOEvolution', order='2', approx='II', L=4, bc='finite', compression='SVD', chi_max=2, pre=2,
+            inplace=True, calls=[['run', 2, 1], ['run', 1, 1]])
         # W_I / W_II
         for eng in ('ExpMPOEvolution', 'TimeDependentExpMPOEvolution'):
             for order in ('1', '2'):
@@ -204,7 +213,7 @@ def programs(ctx):
 
 def prog_key(p):
     return [p['engine'], p['order'], p['L'], p['bc'], p['model'], p['mode'], p.get('approx'), p.get('compression'),
-            p.get('t0', 0), p['calls']]
+            p.get('t0', 0), p['calls'], bool(p.get('inplace'))]
 
 
 def validate(ctx, batches):
